@@ -68,16 +68,20 @@ def parse(r):
     if m: r.violation = m.group(1)
     elif "Deadlock reached" in o: r.violation = "deadlock"
     else:
-        m = re.search(r"(?:Temporal properties were violated|Action property (\S+) is violated)", o)
-        if m: r.violation = m.group(1) or "temporal"
+        m = re.search(r"(?:Temporal properties were violated|Action property (\S+) is violated|Temporal property (\S+) was violated)", o)
+        if m: r.violation = m.group(1) or m.group(2) or "temporal"
     if r.violation:
         i = o.find("Error: The behavior up to this point is")
         if i >= 0: r.trace_text = o[i:]
     if r.error is None:
-        m = re.search(r"(Parsing or semantic analysis failed|Error: .*(?:evaluat|TLC threw|Attempted|was not|overflow|nonexistent|undefined).*)", o)
+        m = re.search(r"(Parsing or semantic analysis failed|Error: .*(?:evaluat|TLC threw|Attempted|was not|overflow|nonexistent|undefined|Assumption .* is false).*)", o)
         if m and not r.violation: r.error = o[m.start():m.start() + 2000]
         elif r.rc not in (0, 12, 11, 10, 13) and not r.violation and r.rc is not None:
             r.error = "rc=%s\n%s" % (r.rc, o[-2000:])
+        elif not r.violation and r.rc in (12, 11, 10, 13):
+            # TLC reports a violation class by its exit code, the text was not recognised above: never treat that as a pass
+            m = re.search(r"Error: .*", o)
+            r.error = "rc=%s (violation class not recognised): %s" % (r.rc, m.group(0)[:400] if m else o[-600:])
     for m in re.finditer(r"<(\w+) line \d+, col \d+ to line \d+, col \d+ of module (\w+)>: (\d+):(\d+)", o):
         r.coverage[m.group(1)] = (int(m.group(3)), int(m.group(4)))
 
